@@ -1,4 +1,4 @@
-"""C09 -- computing changes is pure; performing touches only what was announced (R09.1-R09.12)."""
+"""C09 -- computing changes is pure; performing touches only what was announced (R09.1-R09.13)."""
 from __future__ import annotations
 
 import ast
@@ -27,6 +27,7 @@ EXPLANATION = (
 EXPLANATION += " R09.5: a resource found by resolving a name is sanitised by a project test only together with a not-ignored (or equal-to-the-caller's) edge on every path."
 EXPLANATION += ' R09.11: a function that remembers its answer under a key reads, in the computation of the remembered value, nothing of its parameters that the key does not contain (followed into the helpers it calls).'
 EXPLANATION += " R09.12: the resource of an object known only as an AbstractModule (builtin modules have none) is compared with None before use."
+EXPLANATION += " R09.13: every while loop that steps an index forward through a text compares the index with the length in its test."
 ASSUMPTIONS = [
     "callee resolution without a type checker: see DESIGN.md section 2 (E2)",
     "resources handed in by the caller (constructor/get_changes parameters) are the caller's responsibility (CALLER provenance is accepted)",
@@ -942,6 +943,9 @@ def check(ctx, res) -> None:
     from .common import memo_key_rule
 
     memo_key_rule(ctx, res, "R09.11", ("rope.base.resources", "rope.base.project", "rope.base.fscommands", "rope.base.libutils"))
+    from .common import bounded_scan_rule as _bs
+
+    _bs(ctx, res, "R09.13")
 
 
 def module_without_file_rule(ctx, res, rule: str) -> None:
